@@ -184,16 +184,27 @@ Print Assumptions any_order_with_the_real_evaluator.
 (** * the premise discharged for bodies of the read-only fragment (proofs/VirtFrame.v)
     [strip st]: st with the virtual signals of every trace removed.  [clean st n]: n is not an alias, does not address
     a virtual signal and is not one of the names listing the signals.  An expression of the read-only fragment
-    (ReadOnly.is_ro: literals, names, arithmetic, comparison, logic, bitwise operators, slice, if, do) over clean names
+    (VirtFrame.is_rov: literals, names, arithmetic, comparison, logic, bitwise operators, slice, if, do and relative
+    evaluation e@k, nested arbitrarily) over clean names
     that has a value on the stripped state has that value on the state itself and leaves it as it was -- whatever
     the caches of the virtual signals hold. *)
 From WalModel.proofs Require ContInv VirtFrame.
 
 Theorem read_only_expressions_ignore_virtual_signals : forall lf f e st a,
-  ReadOnly.is_ro e = true -> ContInv.cwf (st_cont st) -> Forall (VirtFrame.clean st) (VirtFrame.syms e) ->
+  VirtFrame.is_rov e = true -> ContInv.cwf (st_cont st) -> Forall (VirtFrame.clean st) (VirtFrame.syms e) ->
   eval lf f e (VirtFrame.strip st) = Ok a (VirtFrame.strip st) -> eval lf f e st = Ok a st.
 Proof. exact VirtFrame.read_only_ignores_virtual_signals. Qed.
 Print Assumptions read_only_expressions_ignore_virtual_signals.
+
+Theorem the_fragment_is : forall e, VirtFrame.is_rov e =
+  match e with
+  | VInt _ | VBool _ | VStr _ | VFloat _ | VSym _ _ => true
+  | VList _ (VOp o :: args) =>
+      (ReadOnly.ro_op o || match o with OReval => true | _ => false end) && forallb VirtFrame.is_rov args
+  | _ => false
+  end.
+Proof. intros e. destruct e; reflexivity. Qed.
+Print Assumptions the_fragment_is.
 
 Theorem strip_and_clean_are : forall st n,
   VirtFrame.strip st = upd_cont st (with_traces (st_cont st)
@@ -213,7 +224,7 @@ Print Assumptions strip_and_clean_are.
     -- any order, with repeats, from any sound cache -- the body's value at each index *)
 Theorem reads_of_a_read_only_body_in_any_order : forall lf f tid name st0 t0 body,
   tr_tid t0 = tid -> c_ntraces (st_cont st0) = 1 ->
-  forallb ReadOnly.is_ro body = true ->
+  forallb VirtFrame.is_rov body = true ->
   Forall (VirtFrame.clean (vstate tid name st0 t0 body 0 [])) (flat_map VirtFrame.syms body) ->
   forall ts_of : Z -> Z,
   (forall j, in_range t0 j -> znth (tr_ts t0) j = Some (ts_of j)) ->
@@ -230,3 +241,9 @@ Print Assumptions reads_of_a_read_only_body_in_any_order.
 Example every_index_sequence_with_the_real_evaluator : forall js, Forall (in_range ScanProofs.sig_trace) js ->
   exists c2, reads (eval 50 50) "t" "v" ScanProofs.sig_state ScanProofs.sig_trace v_body js [] (map v_value js) c2.
 Proof. exact VirtFrame.demo_any_order. Qed.
+
+(** and by the rising edge r := (&& a (! a@-1)), a body with relative evaluation *)
+Example rising_edge_at_every_index_sequence : forall js, Forall (in_range ScanProofs.sig_trace) js ->
+  exists c2, reads (eval 50 50) "t" "r" ScanProofs.sig_state ScanProofs.sig_trace VirtFrame.rise_body js []
+                   (map VirtFrame.rise_value js) c2.
+Proof. exact VirtFrame.rise_any_order. Qed.
